@@ -282,7 +282,7 @@ func c07Cases(full bool) []c07Case {
 
 func c07Describe() {
 	rec := core.Rec("C07")
-	rec.Rule = "real TCP sessions (default dialers, the client's DEFAULT tls.Config with the harness CA installed as the only system root through SSL_CERT_FILE) of DialAndSend against the reference server on 127.0.0.1 (a localhost name by go-mail's rule) and 127.0.0.2 (not): product of TLS policy {mandatory, default (no option), opportunistic, none, implicit} x 13 auth types x host x server behaviour {STARTTLS advertised or not; STARTTLS answered 220 / 454 / 502 / garbage; handshake ok / certificate for another name / certificate of an untrusted CA / garbage bytes; plain-text speaker on the implicit-TLS port} x advertised AUTH lists (2 in quick, 7 in thorough, incl. only-cleartext mechanisms, empty, absent). Fresh random 16-character credentials per case. Both tiers enumerate their product completely (quick with 2 AUTH lists, thorough with 7). " +
+	rec.Rule = "real TCP sessions (default dialers, the client's DEFAULT tls.Config with the harness CA installed as the only system root through SSL_CERT_FILE) of DialAndSend against the reference server on 127.0.0.1 (a localhost name by go-mail's rule) and 127.0.0.2 (not): product of TLS policy {mandatory, default (no option), opportunistic, none, implicit} x 13 auth types x host x server behaviour {STARTTLS advertised or not; STARTTLS answered 220 / 454 / 502 / garbage; handshake ok / certificate for another name / certificate of an untrusted CA / garbage bytes; plain-text speaker on the implicit-TLS port} x advertised AUTH lists (2 in quick, 7 in thorough, incl. only-cleartext mechanisms, empty, absent). Fresh random 16-character credentials per case. Both tiers enumerate their product completely (quick with 2 AUTH lists, thorough with 7). TestC07Names adds, over in-memory connections, 18 host names around go-mail's localhost rule (exact names, names that merely start/end with or contain 'localhost', 127.x look-alikes) x {none, opportunistic without STARTTLS} x {PLAIN, LOGIN, AUTODISCOVER} x 3 AUTH lists. " +
 		"Oracle on the byte tap: under mandatory policy the cleartext consists of EHLO/HELO, STARTTLS and QUIT lines only, no session continues after a handshake with an invalid certificate, nothing but QUIT (or TLS records) follows a failed handshake; implicit TLS: first byte is a TLS record and no SMTP verb in clear; under every policy the PLAIN/LOGIN password never appears in the cleartext raw, hex or base64 (3 alignments) unless the type is *-NOENC or the host is localhost; AUTODISCOVER never issues AUTH PLAIN/LOGIN/XOAUTH2 on an unencrypted connection. " +
 		"Non-trivial: the server deviates from the happy path or the policy is not 'none'. Distinct by the case tuple."
 	rec.Assumptions = []string{"Go's root loader honours SSL_CERT_FILE/SSL_CERT_DIR (Linux)", "127.0.0.2 is bindable on the loopback interface"}
@@ -322,4 +322,117 @@ func TestC07(t *testing.T) {
 		c.Pass = rapid.StringMatching(`[A-Za-z0-9]{16}`).Draw(t, "pass")
 		return c
 	}}.Check(t)
+}
+
+// --- host-name variant -------------------------------------------------------------------------
+//
+// The TCP product above can only use IP literals. Which *names* count as "a localhost server" is
+// checked here over in-memory connections (WithDialContextFunc accepts any host name).
+
+type c07NameCase struct {
+	Host     string `json:"host"`
+	Policy   string `json:"policy"` // none | opportunistic (STARTTLS is never offered: the connection stays clear)
+	Auth     string `json:"auth"`   // PLAIN | LOGIN | AUTODISCOVER
+	AuthList string `json:"auth_list"`
+	User     string `json:"user"`
+	Pass     string `json:"pass"`
+}
+
+// c07IsLocalName is deliberately generous: whatever could reasonably be called a localhost name is
+// exempt, so that only a password sent to a clearly foreign name is reported.
+func c07IsLocalName(h string) bool {
+	l := strings.ToLower(strings.TrimSuffix(h, "."))
+	return l == "localhost" || l == "127.0.0.1" || l == "::1" || l == "[::1]" || l == "localhost.localdomain" || l == "ip6-localhost" || l == "ip6-loopback"
+}
+
+func c07NameRun(c c07NameCase) []*core.Violation {
+	rec := core.Rec("C07")
+	caps := []string{"8BITMIME", strings.TrimSpace("AUTH " + c.AuthList)}
+	srv := refsmtp.NewServer(refsmtp.Script{Caps: caps, NoGreetProbe: true})
+	srv.Auth = c05Auth
+	d := &refsmtp.Dialer{Srv: srv}
+	opts := []mail.Option{mail.WithDialContextFunc(d.DialContext), mail.WithTimeout(3 * time.Second), mail.WithHELO("client.verif.example"),
+		mail.WithSMTPAuth(mail.SMTPAuthType(c.Auth)), mail.WithUsername(c.User), mail.WithPassword(c.Pass)}
+	if c.Policy == "none" {
+		opts = append(opts, mail.WithTLSPolicy(mail.NoTLS))
+	} else {
+		opts = append(opts, mail.WithTLSPolicy(mail.TLSOpportunistic))
+	}
+	cl, err := mail.NewClient(c.Host, opts...)
+	if err != nil {
+		rec.Skip()
+		return nil
+	}
+	r := watchdog(20*time.Second, d, func() error {
+		return cl.DialAndSendWithContext(context.Background(), simpleMsg(1, 1, "quoted-printable"))
+	})
+	d.Shutdown()
+	if r.Panic != nil {
+		return []*core.Violation{core.V("panic", "%v", r.Panic)}
+	}
+	if r.TimedOut || len(d.Sessions) == 0 {
+		rec.AddExtra("inconclusive_watchdog", 1)
+		return nil
+	}
+	var vs []*core.Violation
+	local := c07IsLocalName(c.Host)
+	for _, s := range d.Sessions {
+		if !local {
+			for enc, needle := range secretNeedles(c.Pass) {
+				if bytes.Contains(s.Cleartext, []byte(needle)) {
+					vs = append(vs, core.V("password-in-clear", "the password (%s form) was sent in clear to host %q, which is not a localhost name (policy %s, auth %s)\n%s", enc, c.Host, c.Policy, c.Auth, s.Transcript(20)))
+					break
+				}
+			}
+		}
+		if c.Auth == "AUTODISCOVER" {
+			for _, cmd := range s.AuthCmds {
+				f := strings.Fields(cmd)
+				if len(f) >= 2 {
+					switch strings.ToUpper(f[1]) {
+					case "PLAIN", "LOGIN", "XOAUTH2":
+						vs = append(vs, core.V("autodiscover-reveals-password", "auto-discovery chose %s on an unencrypted connection to %q (advertised: %q)", f[1], c.Host, c.AuthList))
+					}
+				}
+			}
+		}
+		if len(s.AuthCmds) > 0 {
+			rec.AddExtra("names_auth_commands_seen", 1)
+		}
+	}
+	rec.NonTrivial(core.Join("name", c.Host, c.Policy, c.Auth, c.AuthList))
+	rec.AddExtra("host_name_cases", 1)
+	return vs
+}
+
+var c07Hosts = []string{"localhost", "127.0.0.1", "::1", "localhost.example.com", "localhost.mail.example.org", "localhost4", "localhostx.example", "LocalHosting.example.org",
+	"xlocalhost", "my-localhost", "127.0.0.1.example.com", "127.0.0.10", "127.0.0.2", "::10", "mail.example.com", "relay.localhost.example", "localhos", "1.127.0.0.1"}
+
+func TestC07Names(t *testing.T) {
+	c07Describe()
+	p := core.Prop[c07NameCase]{ID: "C07", Test: "TestC07Names", Run: c07NameRun}
+	if core.ReplayArg != "" {
+		p.Check(t)
+		return
+	}
+	if core.Shard == 0 {
+		p.Regress(t)
+	}
+	i := 0
+	for _, host := range c07Hosts {
+		for _, pol := range []string{"none", "opportunistic"} {
+			for _, auth := range []string{"PLAIN", "LOGIN", "AUTODISCOVER"} {
+				for _, al := range []string{"PLAIN LOGIN", "LOGIN PLAIN XOAUTH2", "PLAIN LOGIN CRAM-MD5"} {
+					i++
+					if i%core.Shards != core.Shard {
+						continue
+					}
+					c := c07NameCase{Host: host, Policy: pol, Auth: auth, AuthList: al, User: "user" + core.Hash(fmt.Sprint(i)), Pass: core.Hash(fmt.Sprint("pw", i, core.Seed)) + "Zz9"}
+					if v := p.RunOne(c); v != nil {
+						t.Fatalf("VIOLATION-DETAIL property=C07 %s", v)
+					}
+				}
+			}
+		}
+	}
 }
